@@ -67,7 +67,7 @@ func RunPlan(p *Plan, env *Env) *RunResult {
 	if env.Journal == nil {
 		env.Journal = func(string) {}
 	}
-	r.runWorld(p, NewModel(), nil, "")
+	r.runWorld(p, NewModel(), nil, "", nil)
 	r.res.EventHash = fmt.Sprintf("%016x", uint64(r.hash))
 	return r.res
 }
@@ -89,7 +89,7 @@ func imgKey(path string, idx int) string {
 
 // runWorld mounts a world (empty, or on a crash image), runs recovery if it
 // is an image, runs the plan's statements and then explores captured images.
-func (r *runner) runWorld(p *Plan, m *Model, img *Image, path string) {
+func (r *runner) runWorld(p *Plan, m *Model, img *Image, path string, chain []map[string]string) {
 	dir := filepath.Join(r.env.Scratch, fmt.Sprintf("world%d", r.nWorld))
 	r.nWorld++
 	if err := os.MkdirAll(dir, 0755); err != nil {
@@ -107,7 +107,7 @@ func (r *runner) runWorld(p *Plan, m *Model, img *Image, path string) {
 		return
 	}
 	w.mon = monitorsFor(r.plan.Prop)
-	t := &timeline{r: r, w: w, m: m, plan: p, path: path}
+	t := &timeline{r: r, w: w, m: m, plan: p, path: path, chain: chain}
 	func() {
 		defer func() {
 			// harness bug guard: never leave a world mounted
@@ -151,7 +151,11 @@ func (r *runner) runWorld(p *Plan, m *Model, img *Image, path string) {
 		cont := im.Sel.Cont
 		cont.Knobs = mergeKnobs(p.Knobs, cont.Knobs)
 		r.res.Images++
-		r.runWorld(cont, nil, im, imgKey(path, im.Idx))
+		sub := append([]map[string]string(nil), chain...)
+		if img != nil {
+			sub = append(sub, img.Info)
+		}
+		r.runWorld(cont, nil, im, imgKey(path, im.Idx), sub)
 		if r.res.Harness != "" {
 			return
 		}
@@ -181,6 +185,8 @@ type timeline struct {
 	shape string
 	stop  bool
 	img   *Image
+	chain []map[string]string // infos of ancestor images (own image excluded)
+	phase string
 	// probes for the shape fingerprint
 	probes map[string]bool
 }
@@ -194,7 +200,7 @@ func (t *timeline) probe(p string) {
 }
 
 func (t *timeline) violate(oracle, detail string, feat map[string]string, stmt int) {
-	v := &Violation{Prop: t.r.plan.Prop, Oracle: oracle, Features: feat, Detail: detail, StmtIdx: stmt}
+	v := &Violation{Prop: t.r.plan.Prop, Oracle: oracle, Features: feat, Detail: detail, StmtIdx: stmt, Chain: t.chain}
 	if t.img != nil {
 		if v.Features == nil {
 			v.Features = map[string]string{}
@@ -327,7 +333,7 @@ func (t *timeline) recoverImage(img *Image) bool {
 		return false
 	}
 	redo := w.Stats["replay_redo"]
-	nontrivial := redo > 0 || (img.Info["site"] == "flush" && img.Info["class"] != "complete" && img.Info["class"] != "none")
+	nontrivial := redo > 0 || (img.Info["site"] == "flush" && img.Info["subset"] != "complete" && img.Info["subset"] != "none")
 	if nontrivial {
 		t.r.res.Fingerprints = append(t.r.res.Fingerprints, "img:"+filesHash(img.Files))
 	}
